@@ -196,7 +196,11 @@ theorem hg_vpush {s' : St CHeap} {b : Bool} (eg : ExtGood ext) (g : GoodI s0)
   obtain ⟨_, hcell, _⟩ := pop_inv hp1
   have hv : VRefsOk s0.heap v := roots_stack g.roots (Nat.le_refl _) hcell
   have key := eg.vpush s0.heap (deref s0.heap v) s0.acc h' g.hg (deref_refs g.hg hv) g.accOk h2 sm
-  exact ⟨key.1, key.2.2⟩
+  refine ⟨key.1, ?_⟩
+  -- `acc` is the popped cell: a pointer, or a cell that is its own dereference
+  have k2 := key.2.2
+  show plainGlob v = true
+  cases v <;> first | rfl | exact k2
 
 theorem hg_closure {s' : St CHeap} {b : Bool} (g : GoodI s0)
     (hx : exec (concreteOps ext) .closureAcc (nx s0) = .ok (s', b)) (sm : Small s'.heap) :
